@@ -44,7 +44,7 @@ m = {
     ],
     "checks": checks,
     "not_applicable": na,
-    "notes": "All checks are property-based tests / fuzzers; see DESIGN.md. ./check <ID> --tier quick|thorough; VERIF_SEED selects the PRNG values.",
+    "notes": "All checks are property-based tests / fuzzers; see DESIGN.md. ./check <ID> --tier quick|thorough; VERIF_SEED selects the PRNG values. Exit 0 = held, 1 = VIOLATION line, 2 = undecided (build failure, harness error, time-out, starved machine). /repo carries nine unguarded 'fix:' commits (D1-D9, recorded as fixed in /verif/known_findings.json, each with a fixed regression case run by both tiers); two known findings (F2 for C11, F3 for C02) are printed as KNOWN-FINDING lines. Sensitivity: /verif/seeded (128 changes by independent sub-agents), /verif/mutants.py (85), DESIGN.md section 9.",
 }
 json.dump(m, open(os.path.join(VERIF, "MANIFEST.json"), "w"), indent=1)
 print("MANIFEST.json: %d checks, %d not_applicable" % (len(checks), len(na)))
